@@ -149,6 +149,7 @@ fn basic_header(h: &Value, cs: u64) -> Option<Vec<u8>> {
             with("Basic ", &e.into_iter().collect::<String>())
         }
         "trailing" => with("Basic ", &format!("{b64}A")),
+        "twice" => with("Basic ", &b64),      // (run_basic sends the line twice)
         "lead" => with("Basic ", &format!("A{b64}")),
         "midpad" => {
             if cred.len() >= 2 { with("Basic ", &format!("{}{}", STANDARD.encode(&cred[..1]), STANDARD.encode(&cred[1..]))) }
@@ -181,7 +182,8 @@ fn run_basic(scn: &Value) -> Value {
     let cs = scn["cs"].as_u64().unwrap_or(0);
     let (router, path) = match basic_router(scn, cs) { Ok(x) => x, Err(e) => return json!({"kind": "tool-error", "msg": e}) };
     let hv = basic_header(&scn["hdr"], cs);
-    let auth: Vec<(String, Vec<u8>)> = hv.iter().map(|v| ("Authorization".to_string(), v.clone())).collect();
+    let mut auth: Vec<(String, Vec<u8>)> = hv.iter().map(|v| ("Authorization".to_string(), v.clone())).collect();
+    if s(&scn["hdr"]["kind"]) == "twice" { let again = auth[0].1.clone(); auth.push((if cs % 2 == 0 { "Authorization" } else { "authorization" }.to_string(), again)) }
     let method = match s(&scn["method"]) { "" => "GET", m => m };
     let bytes = request_bytes(method, path, &auth);
     // C13 rows are single-variant: a panic is left to the worker framework (it records file:line)
@@ -560,7 +562,7 @@ fn gen_basic(rng: &mut Rng) -> Value {
         _ => {}
     }
     let kind = if rng.chance(1, 2) { "basic" } else { *rng.pick(&["basic", "nopad", "noncanon", "lower", "upper", "twospace", "nospace", "tab", "bearer", "digest", "schemeonly", "missing",
-        "badchar", "trailing", "lead", "midpad", "nonutf8_last", "nonutf8_trunc", "nonutf8_mid", "nonutf8_repl", "rawff"]) };
+        "badchar", "trailing", "lead", "midpad", "nonutf8_last", "nonutf8_trunc", "nonutf8_mid", "nonutf8_repl", "rawff", "twice"]) };
     json!({"mod": "basic", "form": if n == 1 && rng.chance(1, 2) { "single" } else { "array" }, "mount": *rng.pick(&["top", "nested"]),
            "method": *rng.pick(&["GET", "POST", "GET", "HEAD", "OPTIONS"]),
            "pairs": pairs.iter().map(|(u, p)| json!({"u": u, "p": p})).collect::<Vec<_>>(),
